@@ -446,6 +446,16 @@ def run(chk, facts, tier, only=None):
                             neg = any(x.get("k") == "un" and x.get("op") == "Not" for x in walk(p["c"]))
                             if in_then != neg:
                                 guarded = True
+                        # (ii') `if seen.contains(id) { … } else { seen.insert(id); recurse }` (or the negated form)
+                        if p.get("k") == "if":
+                            tests = [x for x in walk(p["c"]) if x.get("k") == "mcall" and x["m"] in ("contains", "contains_key", "get")
+                                     and U.strip_to_local(x["recv"]) in sets]
+                            if tests:
+                                neg = any(x.get("k") == "un" and x.get("op") == "Not" for x in walk(p["c"]))
+                                fresh_branch = p["t"] if neg else p.get("e")
+                                if fresh_branch is not None and any(x is c for x in walk(fresh_branch)) and any(
+                                        t.order[id(i)] < t.order[id(c)] and any(x is i for x in walk(fresh_branch)) for i in inserts):
+                                    guarded = True
                         # (iii) `match seen.get(id) { None => { seen.insert(..); recurse } … }`
                         if p.get("k") == "match" and p is not m:
                             sc = unblock(p["scrut"])
